@@ -130,6 +130,10 @@ def chunks_from(rng, y, with_unknown=True):
       if len(p) >= 2:
         ch[p] = nxt
         nxt += 1
+  if nxt and rng.random() < 0.5:
+    # chunk ids are names: "chunks[i] == j: point i belongs to chunklet j" - gaps, one-based, any order
+    new = rng.choice(np.arange(0, 3 * nxt + 3), size=nxt, replace=False)
+    ch = np.where(ch >= 0, new[np.maximum(ch, 0)], -1)
   return ch
 
 
